@@ -36,7 +36,7 @@ def live_function(tmod, f):
         raw, kind = raw.__func__, "staticmethod"
     elif isinstance(raw, property):
         raw, kind = raw.fget, "property"
-    return raw, kind
+    return inspect.unwrap(raw), kind
 
 
 def drive(tmod, m, plan, records=None):
